@@ -194,6 +194,18 @@ theorem C17_front_cert_vectors (Ω : List World) (D : List Cond) (hD : D.Nodup) 
     exact hη.1
   exact C17_front_cert_sound Ω D hD front pool h (impOf D η) ((isCRepB_iff Ω D η hlen).mp hη)
 
+
+/-- the c-inference certificate in terms of the executable counter-model test of the harness: once a certificate for `q` is accepted,
+**no** impact vector passes "is a c-representation and does not accept `q`" -/
+theorem C05_cert_no_counter_model (Ω : List World) (D : List Cond) (hD : D.Nodup) (q : Cond) (pool : List CLeaf)
+    (h : cCertCheck Ω D q pool = true) (hf : ∃ w ∈ Ω, q.fal w = true) (η : List Nat) (hη : isCRepB Ω D η = true) :
+    acceptCode Ω (kappaC D (impOf D η)) q = true := by
+  have hlen : η.length = D.length := by
+    simp only [isCRepB, Bool.and_eq_true, beq_iff_eq] at hη
+    exact hη.1
+  have hspec := C05_cert_sound Ω D hD q pool h
+  exact (C18_accept_iff Ω _ q).mpr (C17_cinf_accepted Ω D q (impOf D η) hspec hf ((isCRepB_iff Ω D η hlen).mp hη))
+
 /-! non-vacuity: the penguin base has the single Pareto-minimal vector (1,2,2) -/
 section Example
 def exFrontPool : List FLeaf :=
